@@ -634,6 +634,131 @@ def _parameters_applied(ctx, alloc):
                construct='update applies %s' % attr)
 
 
+def _cumulative(ctx, priv, merged):
+    """C06.2: the utilisation an instance is ranked by is cumulative over
+    everything queued before it, whatever became of those: in both
+    generators the accumulated demand only grows - by the demand of the
+    current instance, once, on every path of an iteration - and the
+    utilisation-before of the next instance is the utilisation-after of this
+    one on every path (an instance beyond the cap still counts: the ones
+    behind it are beyond the cap too)."""
+    for func in (priv, merged):
+        graph = ctx.cfg(func)
+        loops = _yield_loops(graph)
+        head = K.one(loops, 'queue loop of %s' % func.qualname)
+        body = K.loop_body_nodes(head)
+        etup = _entry_tuple(ctx, func, quiet=True)
+        ubef, uaft = 'util_before', 'util_after'
+        if etup is not None and len(etup.elts) >= 3 and all(
+                isinstance(e, ast.Name) for e in etup.elts[1:3]):
+            ubef, uaft = [e.id for e in etup.elts[1:3]]
+        # the accumulator: first argument of the utilisation computed for
+        # the "after" local
+        accs = set()
+        for node in body:
+            if node.kind == 'stmt' and isinstance(node.ast, ast.Assign) and \
+                    N.txt(node.ast.targets[0]) == uaft and \
+                    isinstance(node.ast.value, ast.Call) and \
+                    node.ast.value.args and \
+                    isinstance(node.ast.value.args[0], ast.Name):
+                accs.add(node.ast.value.args[0].id)
+        ctx.require(len(accs) == 1, 'the accumulated demand of %s'
+                    % func.qualname, rule='C06.2', func=func)
+        acc = sorted(accs)[0]
+        stores = [n for n in body if n.kind == 'stmt' and (
+            (isinstance(n.ast, ast.Assign) and
+             N.txt(n.ast.targets[0]) == acc) or
+            (isinstance(n.ast, ast.AugAssign) and
+             N.txt(n.ast.target) == acc))]
+
+        def additive(node):
+            stmt = node.ast
+            if isinstance(stmt, ast.AugAssign):
+                return isinstance(stmt.op, ast.Add) and \
+                    N.txt(stmt.value).endswith('.demand')
+            val = stmt.value
+            return isinstance(val, ast.BinOp) and isinstance(
+                val.op, ast.Add) and sorted(
+                    [N.txt(val.left) == acc, N.txt(val.right) == acc]) == \
+                [False, True] and (N.txt(val.left).endswith('.demand') or
+                                   N.txt(val.right).endswith('.demand'))
+        ok = len(stores) == 1 and additive(stores[0])
+        skip = None
+        if ok:
+            skip = K.find_path(head, [head], cut_node=lambda n: n in stores,
+                               cut_edge=lambda e, h=head: e.src is h and
+                               e.kind == 'done', follow_exc=False)
+        ctx.ob('C06.2', func, stores[0] if stores else head,
+               ok and skip is None,
+               'the accumulated demand grows by the demand of the current '
+               'instance once per iteration and is never taken back (%s)'
+               % '; '.join(N.txt(n.ast) for n in stores),
+               construct='cumulative demand in %s' % func.name)
+        # the value is carried in the "before" local itself or in a local of
+        # its own that "before" is read from at the top of the next iteration
+        stores = {}
+        for n in body:
+            if n.kind == 'stmt' and isinstance(n.ast, ast.Assign) and \
+                    len(n.ast.targets) == 1 and \
+                    isinstance(n.ast.targets[0], ast.Name) and \
+                    N.txt(n.ast.value) == uaft:
+                stores.setdefault(n.ast.targets[0].id, []).append(n)
+        good = None
+        skip2 = []
+        for carrier, nodes in sorted(stores.items()):
+            path = K.find_path(head, [head], cut_node=lambda n, ns=nodes:
+                               n in ns,
+                               cut_edge=lambda e, h=head: e.src is h and
+                               e.kind == 'done', follow_exc=False)
+            reads = [n for n in body if n.kind == 'stmt' and
+                     isinstance(n.ast, ast.Assign) and
+                     N.txt(n.ast.targets[0]) == ubef and
+                     N.txt(n.ast.value) not in (uaft, carrier) and
+                     'MAX_UTILIZATION' not in N.txt(n.ast.value)]
+            if path is None and (carrier == ubef or not reads):
+                good = nodes[0]
+                skip2 = None
+                break
+            skip2 = path or skip2
+        ctx.ob('C06.2', func, good if good is not None else head,
+               good is not None,
+               'the utilisation before the next instance is the utilisation '
+               'after this one on every path of an iteration',
+               path=K.describe(skip2) if skip2 else None,
+               construct='utilisation carried over in %s' % func.name)
+
+
+def _every_load_queues(ctx):
+    """C06.5: an instance that is loaded again (an allocations event moved
+    its pattern to another allocation) is queued again under the allocation
+    the assignment table gives now - Loader.load_app hands every instance,
+    new or known, to Cell.add_app with that allocation."""
+    loader = ctx.index.get_class(K.LOADER, 'Loader')
+    func = loader.methods.get('load_app') if loader else None
+    ctx.require(func is not None, 'Loader.load_app', rule='C06.5')
+    graph = ctx.cfg(func)
+    finds = [n for n in graph.nodes if n.kind == 'stmt' and
+             isinstance(n.ast, ast.Assign) and
+             isinstance(n.ast.value, ast.Call) and
+             K.is_meth(n.ast.value, 'find_assignment')]
+    ctx.require(len(finds) == 1, 'find_assignment in load_app',
+                rule='C06.5', func=func)
+    tgt = finds[0].ast.targets[0]
+    alloc_var = N.txt(tgt.elts[1]) if isinstance(tgt, ast.Tuple) and \
+        len(tgt.elts) == 2 else None
+    adds = [n for n, c in K.nodes_calling(
+        graph, lambda c: K.is_meth(c, 'add_app') and len(c.args) == 2 and
+        N.txt(c.args[0]) == alloc_var)]
+    skip = K.find_path(finds[0], [graph.exit],
+                       cut_node=lambda n: n in adds, follow_exc=False)
+    ctx.ob('C06.5', func, adds[0] if adds else finds[0],
+           bool(adds) and skip is None,
+           'every instance loaded, new or already known, is queued under '
+           'the allocation find_assignment returned',
+           path=K.describe(skip) if skip else None,
+           construct='load_app always queues')
+
+
 def _given_value_kept(ctx, alloc):
     """C06.2: a configured value is taken whenever one is given - the
     setters fall back to the default under `is None` only, so that a legal
@@ -822,6 +947,8 @@ def check(ctx):
     _parameters_applied(ctx, alloc)
     _given_value_kept(ctx, alloc)
     _reload_order(ctx)
+    _cumulative(ctx, priv, merged)
+    _every_load_queues(ctx)
     _sentinel(ctx, priv, merged)
     _layout(ctx, priv, merged)
     _exactly_once(ctx, priv, merged)
